@@ -258,7 +258,7 @@ class Run:
         listeners = [self.objs[p] for p in step.get("listeners", [p for p in spec["providers"] if p not in ("sm", "model")])]
         model = self.objs["model"]
         stored = step.get("stored")
-        if stored is not None:
+        if stored is not None and model is not None:
             setattr(model, spec.get("state_field", "state"), eval(step["stored_expr"], self.mod.__dict__))  # noqa: S307
         kw = {"rtc": spec["opts"]["rtc"], "allow_event_without_transition": spec["opts"]["allow"]}
         if listeners:
@@ -280,7 +280,12 @@ class Run:
         self.user_model = model
         try:
             if spec.get("mixin"):
-                model = self.objs["model"] = getattr(self.mod, f"Mod_{spec['uid']}")()
+                mcls = getattr(self.mod, f"Mod_{spec['uid']}")
+                if spec["mixin"] == "first" and stored is not None:
+                    model = mcls(stored=eval(step["stored_expr"], self.mod.__dict__))  # noqa: S307
+                else:
+                    model = mcls()
+                self.objs["model"] = model
                 self.user_model = model
                 self.sm = model.statemachine
             elif spec.get("model_shape") == "default":
